@@ -2,7 +2,7 @@
    bool, list, option, prod, unit, sumbool map to OCaml's; nat, Z, positive, string stay
    the extracted inductives; no Extract Constant / Extract Inductive of our own). *)
 From Coq Require Import Extraction ExtrOcamlBasic.
-From DX Require Import Base TreeReduce Repart RepartProofs Shuffle LRU Pred Graph Plan Fusion PlanMeasure DNF Divisions MinMax Loc LocList Align Select.
+From DX Require Import Base TreeReduce Repart RepartProofs Shuffle LRU Pred Graph Plan Fusion PlanMeasure DNF Divisions MinMax Loc LocList Align Select SetIndex.
 Extraction "model.ml" Z.add Z.compare tree_layer part_all
   repart_plan clean_boundaries fewer_ranges more_nsplits more_layer valid_divs plan_ok
   task_or_simple simple_layer task_layer digit insert_digit
@@ -14,4 +14,4 @@ Extraction "model.ml" Z.add Z.compare tree_layer part_all
   stats_divisions presorted_divisions
   ls_start ls_stop loc_divisions loc_parts ll_divisions ll_parts
   align_divisions align_single
-  head_lowered tail_lowered nfirst_tree nfirst_spec select.
+  head_lowered tail_lowered nfirst_tree nfirst_spec select sp_part sp_parts.
